@@ -259,7 +259,18 @@ def jobs(tier, seed):
                                            'kind': 'filter'}, 'weight': 60})
     js.append({'harness': 'store', 'cfg': {'ops': ['put', 'put', 'put', 'get', 'get'], 'burst': [0, 1, 1, 0, 1], 'sorts': 'int',
                                            'kind': 'prio'}, 'weight': 60})
+    # the heap needs >= 6 items before a wrong sift can show: 6 puts in one burst, then 6 gets
+    js.append({'harness': 'store', 'weight': 500,
+               'cfg': {'ops': ['put'] * 6 + ['get'] * 6, 'burst': [0] + [1] * 5 + [0] + [1] * 5, 'sorts': 'int',
+                       'kind': 'prio', 'symcap': False, 'cap': 8}})
     return js
+
+
+
+def extra_checks(tier, seed):
+    """second engine (CrossHair) on the function-level harnesses of xh.xh_c07"""
+    from symx import xh
+    return xh.run('xh.xh_c07', tier)
 
 
 META = {
